@@ -69,6 +69,8 @@ type Engine struct {
 	reverseMaps bool
 	curPos    token.Pos
 	idleHook  FuncV
+	deferGo   bool
+	spawned   []func()
 	logf      func(format string, a ...interface{})
 	vcTimeoutNote string
 	strIDs    map[string]uint64
